@@ -1,5 +1,5 @@
 /-
-The two file readers of the command line (`read_adjacency_data`, `read_affinity_data`) as they stand in the source.
+The adjacency reader of the command line (`read_adjacency_data`) as it stands in the source (the initial-affinity reader: MTProps/CodeReaderAff.lean).
 They are stream-level code (getline, operator>>); their meaning is the front-end model's `parseAdjacency` /
 `readAffinity` (MT/Cli.lean), about which C13 (grammar round trip), C14 (diagonal positions, shape rejection, writes in
 range) and C16 (index safety) prove their statements, and the tie is the correspondence check on byte streams.
@@ -18,9 +18,5 @@ the two read differently. -/
 
 /-- `read_adjacency_data` (app_utils.hpp) -/
 theorem read_adjacency_documented : Gen.readAdjacencyText = "assert(edges_start.size()==0);assert(edges_end.size()==0);assert(edges_weight.size()==0);std::ifstreamin(filename.string());if(in.fail()){throwstd::runtime_error(std::string(\"Inread_adjacency_data,failedtoopen\")+filename.string());}std::cout<<\"Readingadjacencyfile\"<<filename<<std::endl;std::stringline;while(!in.eof()){std::getline(in,line);if(line.size()==0){continue;}line.erase(line.find_last_not_of(\"\")+1);std::vector<weight_t>current_weights;std::istringstreamis(line);size_tcurrent_edge_in,current_edge_out;is>>current_edge_in>>current_edge_out;if(is.fail()){continue;}weight_tvalue;while(is>>value){current_weights.push_back(value);}edges_start.push_back(current_edge_in);edges_end.push_back(current_edge_out);edges_weight.insert(std::end(edges_weight),std::begin(current_weights),std::end(current_weights));}in.close();" := rfl
-
-/-- `read_affinity_data` (app_utils.cpp) -/
-theorem read_affinity_documented : Gen.readAffinityText = "std::ifstreamin(filename.string());if(in.fail()){throwstd::runtime_error(std::string(\"Inread_affinity_data,failedtoopen\")+filename.string());}std::cout<<\"Readingaffinityfile\"<<filename<<std::endl;constsize_tlayer_size=assortative?nof_groups:nof_groups*nof_groups;if(layer_size==0||w.size()%layer_size!=0){throwstd::runtime_error(std::string(\"Inread_affinity_data,inconsistentaffinitysize\")+std::to_string(w.size())+\"for\"+std::to_string(nof_groups)+\"groups\");}constsize_texpected_nof_layers=w.size()/layer_size;std::stringline;size_tnof_layers(0);std::stringtok;doublevalue;while(!in.eof()){std::getline(in,line);if(line.size()==0){continue;}line.erase(line.find_last_not_of(\"\")+1);std::istringstreamis(line);size_tcurrent_nof_groups(0);if(!(is>>tok)||tok==\"#\"){continue;}while(is>>value){current_nof_groups++;}if(current_nof_groups!=nof_groups){throwstd::runtime_error(std::string(\"Inread_affinity_data,expected\")+std::to_string(nof_groups)+\"valuesperlayer,got\"+std::to_string(current_nof_groups)+\"in\"+filename.string());}nof_layers++;}if(nof_layers!=expected_nof_layers){throwstd::runtime_error(std::string(\"Inread_affinity_data,expected\")+std::to_string(expected_nof_layers)+\"layers,got\"+std::to_string(nof_layers)+\"in\"+filename.string());}in.clear();in.seekg(0);while(!in.eof()){std::getline(in,line);if(line.size()==0)continue;line.erase(line.find_last_not_of(\"\")+1);std::istringstreamis(line);if(!(is>>tok)||tok==\"#\"){continue;}size_tlayer;std::istringstreamis_layer(tok);if(!(is_layer>>layer)||layer>=nof_layers){throwstd::runtime_error(std::string(\"Inread_affinity_data,invalidlayerid'\")+tok+\"'in\"+filename.string());}size_tgroup(0),index(0);while(is>>value){index=assortative?group+layer*nof_groups:group+group*nof_groups+layer*nof_groups*nof_groups;w[index]=value;group++;}}" := rfl
-
 
 end MTProps.CodeReaders
